@@ -78,8 +78,8 @@ def vc_compare(H):
 # Polynomial.__add__
 # =====================================================================================
 class Mono:
-    def __init__(self, coef, vid):
-        self.coef, self.vid = coef, vid
+    def __init__(self, coef, vid, owner=None):
+        self.coef, self.vid, self.owner = coef, vid, owner          # owner: the operand whose list holds this very object (None: a copy)
 
     def copy(self):
         return Mono(self.coef, self.vid)
@@ -92,6 +92,11 @@ class Mono:
     def kvc_setitem(self, interp, i, v):
         if i != 0 or not isinstance(v, SNum):
             raise OutOfSubset('store into an abstract monomial other than its coefficient')
+        if self.owner is not None:
+            # frame: monomial lists are shared between polynomials (res.append(ea) stores the operand's own list), so a store into
+            # one changes what the operand -- and every polynomial sharing the term -- denotes
+            interp.ctx.oblige(f'frame: the monomials of operand `{self.owner}` are not written (a store must leave the coefficient as it was)',
+                              v.t == self.coef.t, 'frame')
         self.coef = v
 
 
@@ -118,7 +123,7 @@ class PolyOperand:
         i = sint(i)
         interp.ctx.safety('IndexError', z3.And(i.t >= 0, i.t < self.n.t))
         interp.ctx.assume(self.wf_at(i.t))           # WF(self) and the definition of the prefix sums, at the index read
-        return Mono(SNum(self.cf(i.t)), self.vf(i.t))
+        return Mono(SNum(self.cf(i.t)), self.vf(i.t), owner=self.name)
 
     def kvc_eq(self, interp, other):
         if other == 0 and isinstance(other, int):
